@@ -161,6 +161,16 @@ def run(ctx):
             "TriggerNotification": "self.notifications.room"}
     ctx.check(got == want, rule2, f"{rule2}:for_action", w.where(f), bad_msg=f"{ {k: v for k, v in got.items() if want.get(k) != v} }")
 
+    # ---- the context the push condition is evaluated in carries the same levels -----------------------------------------------------------
+    fcx = [w.fn(k) for k in w.fn_index if k.endswith("for ruma_common::push::condition::PushConditionPowerLevelsCtx>::from") and "RoomPowerLevels>" in k]
+    if not fcx:
+        ctx.missing("C20.helpers", "C20.helpers:push-context", "From<RoomPowerLevels> for PushConditionPowerLevelsCtx not found")
+    else:
+        rets = {D.show(p.ret) for p in dex.paths(fcx[0], [D.sym("c")]) if p.kind == "ret"}
+        want_ctx = "PushConditionPowerLevelsCtx::PushConditionPowerLevelsCtx(users=c.users, users_default=c.users_default, notifications=c.notifications)"
+        ctx.check(rets == {want_ctx}, "C20.helpers", "C20.helpers:push-context", w.where(fcx[0]),
+                  bad_msg=f"the push-condition context is not a field-by-field copy of the power levels ({[r[:140] for r in rets][:1]}): the sender_notification_permission "
+                          f"condition then sees other levels than user_can_trigger_room_notification")
     # ---- defaults and conversion --------------------------------------------------------------------------------
     rule3 = "C20.defaults"
     ctx.rule(rule3, "RoomPowerLevelsEventContent::new() and the serde default functions use the specification's defaults; "
